@@ -1,6 +1,6 @@
 # -*- coding: utf-8 -*-
 """C06 Scenario Outline expansion: one scenario per row, exact placeholder substitution."""
-from .. import rules_outline, rules_select
+from .. import rules_outline, rules_select, rules_parser
 
 EXPLANATION = (
     "Static analysis: the outline builder's code is evaluated abstractly on labelled tokens (no concrete texts). "
@@ -12,9 +12,13 @@ EXPLANATION = (
     "B3: with copy/deepcopy modelled on the token heap, no write of the builder reaches an object that existed before "
     "the call (template step, its table, headings list, row cells; template tag list; examples) except the bookkeeping "
     "indices of example/row. B4: every Table method that changes rows/headings/cells sets modified=True unconditionally; "
-    "ScenarioOutline.scenarios rebuilds exactly when a table is modified.")
-NOT_DECIDED = ("the result of str.replace on concrete texts (placeholder inside other text, cell values containing "
-               "other column names), name-annotation schemas (str.format on user schemas)")
+    "ScenarioOutline.scenarios rebuilds exactly when a table is modified. B5: every element the parser builds, in particular every table row, receives the parser's current line (so "
+    "'scenario.line = row.line' is the row's real line even with comment or blank lines inside the table). B6: render_template constant-folded on 16 "
+    "template texts (placeholder at the start/middle/end, after a '>' or before a '<', repeated, unknown, nested "
+    "brackets, none) x with/without params equals sequential replacement of every <column>. B7: add_column / "
+    "ensure_column_exists / remove_column(s) evaluated on a real Table with two Rows sharing its headings list: afterwards "
+    "every row sees exactly the table's headings and has one cell per heading.")
+NOT_DECIDED = ("cell values containing other column names beyond the sampled universe, name-annotation schemas (str.format on user schemas)")
 TECHNIQUE = "static analysis: abstract evaluation of the outline builder on a token heap with copy/deepcopy semantics (effect and provenance obligations) + structural effect rule on the Table mutators"
 
 
@@ -22,6 +26,17 @@ def run(chk, ix, tier):
     rules_outline.check_build_order(chk, ix)
     rules_outline.check_step_substitution(chk, ix)
     rules_outline.check_table_modified(chk, ix)
+    rules_outline.check_render_template(chk, ix)
+    # the row's line is the row's line in the file (a row scenario is located there): P3 of C04 for table rows and examples
+    rules_parser.check_line_numbers(chk, ix)
+    chk.rules.pop("E4", None)
+    chk.rules["B5"] = chk.rules.pop("P3")
+    chk.rules["B5"]["what"] = "examples rows (like every parsed element) carry the number of the line they stand on: a row scenario is located at its row"
+    for f in chk.findings + chk.imprecise:
+        if f.rule == "P3":
+            f.rule = "B5"
+    chk.findings[:] = [f for f in chk.findings if f.rule != "E4"]
+    rules_outline.check_table_columns(chk, ix)
     rules_select.check_builder_effects(chk, ix, ("B3", "G3", "G2", "B2"))
-    for r, n in (("B1", 1), ("B2", 3), ("B3", 2), ("B4", 5)):
+    for r, n in (("B1", 1), ("B2", 3), ("B3", 2), ("B4", 5), ("B5", 12), ("B6", 30), ("B7", 5)):
         chk.require_instances(r, n)
